@@ -118,7 +118,7 @@ class Builder:
             ws = self.cl[w]
             ws["waiting"] = False
             self._take(w)
-            self.steps.append({"op": "wait_event", "ev": "msg", "contains": "gate=%s*/" % ws["running"], "timeout_ms": 2000})
+            self.steps.append({"op": "wait_event", "ev": "msg", "contains": "gate=%s*/" % ws["running"], "timeout_ms": 6000})
 
     def _txn_end(self, c):
         """c just got ReadyForQuery('I') (or left): in transaction mode the server goes back."""
@@ -158,7 +158,7 @@ class Builder:
     def begin(self, c):
         self.actions.append(["begin", c])
         self.steps += [{"op": "send", "c": c, "msgs": [{"t": "Q", "sql": "BEGIN /*c=%s*/" % c}]},
-                       {"op": "recv", "c": c, "until": "Z"}]
+                       {"op": "recv", "c": c, "until": "Z", "timeout_ms": 8000}]
         self._take(c)
         self.cl[c]["in_txn"] = True
         self._snap()
@@ -166,7 +166,7 @@ class Builder:
     def stmt(self, c):
         self.actions.append(["stmt", c])
         self.steps += [{"op": "send", "c": c, "msgs": [{"t": "Q", "sql": "SELECT " + self._tag(c)}]},
-                       {"op": "recv", "c": c, "until": "Z"}]
+                       {"op": "recv", "c": c, "until": "Z", "timeout_ms": 8000}]
         self._take(c)
         self._txn_end(c)
         self._snap()
@@ -180,7 +180,7 @@ class Builder:
         st["running"] = g
         if st["holds"] or self._free(st["pool"]):
             self._take(c)
-            self.steps.append({"op": "wait_event", "ev": "msg", "contains": "gate=%s*/" % g, "timeout_ms": 2000})
+            self.steps.append({"op": "wait_event", "ev": "msg", "contains": "gate=%s*/" % g, "timeout_ms": 6000})
         else:
             st["waiting"] = True
             self.pools[st["pool"]]["waiter"] = c
@@ -191,7 +191,7 @@ class Builder:
         st = self.cl[c]
         self.actions.append(["finish", c])
         self.steps += [{"op": "backend", "b": self.pools[st["pool"]]["backend"], "open_gate": st["running"]},
-                       {"op": "recv", "c": c, "until": "Z"}]
+                       {"op": "recv", "c": c, "until": "Z", "timeout_ms": 8000}]
         st["running"] = None
         self._txn_end(c)
         self._snap()
@@ -199,7 +199,7 @@ class Builder:
     def commit(self, c):
         self.actions.append(["commit", c])
         self.steps += [{"op": "send", "c": c, "msgs": [{"t": "Q", "sql": "COMMIT /*c=%s*/" % c}]},
-                       {"op": "recv", "c": c, "until": "Z"}]
+                       {"op": "recv", "c": c, "until": "Z", "timeout_ms": 8000}]
         self.cl[c]["in_txn"] = False
         self._txn_end(c)
         self._snap()
@@ -210,10 +210,10 @@ class Builder:
         st["in_txn"] = False
         if park:
             self.parked[c] = st["accept"]
-            self.steps.append({"op": "hook_wait", "actor": st["accept"], "timeout_ms": 1500})
+            self.steps.append({"op": "hook_wait", "actor": st["accept"], "timeout_ms": 6000})
         else:
             self.ended += 1
-            self.steps.append({"op": "wait_tasks", "n": self.ended, "timeout_ms": 2000})
+            self.steps.append({"op": "wait_tasks", "n": self.ended, "timeout_ms": 6000})
         self._release(c)
         self._snap()
 
@@ -242,7 +242,7 @@ class Builder:
         self.actions.append(["unpark", c])
         self.steps.append({"op": "hook_release", "actor": self.parked[c]})
         self.ended += 1
-        self.steps.append({"op": "wait_tasks", "n": self.ended, "timeout_ms": 2000})
+        self.steps.append({"op": "wait_tasks", "n": self.ended, "timeout_ms": 6000})
         self._snap()
 
     def cancel(self, target, rng=None):
@@ -262,7 +262,7 @@ class Builder:
                 self.steps.append({"op": "cancel", "c": "canceller", "pid_of": target[1], "key": 12345 + i, "timeout_ms": 1000})
         self.accepted += 1
         self.ended += 1
-        self.steps += [{"op": "wait_tasks", "n": self.ended, "timeout_ms": 2000},
+        self.steps += [{"op": "wait_tasks", "n": self.ended, "timeout_ms": 6000},
                        {"op": "wait_event", "ev": "cancel", "above_mark": "k", "count": 1, "timeout_ms": 60}]
         self._snap()
 
@@ -658,55 +658,60 @@ def norm_outcome(o):
 
 # --------------------------------------------------------------------------- judge
 
-def judge(run, b_meta, scn, res, a, model, variant_flags, stats):
-    """Compare impl / monitor / model for one scenario; report; return True if clean."""
+def judge(b_meta, scn, a, model, variant_flags):
+    """Compare impl / monitor / model for one scenario.  Returns a list of issues
+    (kind, what, replay dict, found_input) and a list of known-finding hits (key, text)."""
     label = b_meta["label"]
     replay = {"scenario": scn, "meta": b_meta}
+    issues, known_hits = [], []
     if a.get("error"):
-        run.broken.append("scenario %s did not run: %s" % (label, a["error"]))
-        return False
+        return [("broken", "scenario %s did not run: %s" % (label, a["error"]), replay, False)], []
     if a["problems"]:
-        run.violation("tie-broken", "trace of %s cannot be abstracted: %s" % (label, a["problems"][0]),
-                      dict(replay, correspondence="trace abstraction", problems=a["problems"]), found_input=False)
-        return False
+        return [("tie-broken", "trace of %s cannot be abstracted: %s" % (label, a["problems"][0]),
+                 dict(replay, correspondence="trace abstraction", problems=a["problems"]), False)], []
     if b_meta.get("parked") and not a["parked_ok"]:
-        run.violation("tie-broken", "scenario %s: the client task did not stop at %s" % (label, HOOK_POINT),
-                      dict(replay, correspondence="schedule point " + HOOK_POINT), found_input=False)
-        return False
-    ok = True
+        return [("tie-broken", "scenario %s: the client task did not stop at %s" % (label, HOOK_POINT),
+                 dict(replay, correspondence="schedule point " + HOOK_POINT), False)], []
     cd_removes, entry_first = variant_flags
     # monitor
     for i, v in enumerate(a["verdicts"]):
         for cls, text in v:
-            stats["monitor_flags"] += 1
             known = (cls == "F28" and cd_removes) or (cls == "F13" and not entry_first)
             if known and norm_outcome(model[0][i]) == norm_outcome(a["obs"][i]):
-                ent = [e for e in vlib.known_findings("C10") if e.get("id") == KNOWN[cls] and e.get("status") == "known"]
-                run.known_finding(ent[0].get("line") or ent[0].get("what") if ent else "%s: %s" % (KNOWN[cls], text), key=KNOWN[cls])
+                known_hits.append((KNOWN[cls], text))
                 continue
-            ok = False
-            run.violation("counterexample", "%s, cancel #%d (%s): %s" % (label, i, a["cancels"][i]["owner"], text),
-                          dict(replay, monitor=text, cancel_index=i, ops=a["ops"], impl=str(a["obs"]), model=str(model[0])))
+            issues.append(("counterexample", "%s, cancel #%d (%s): %s" % (label, i, a["cancels"][i]["owner"], text),
+                           dict(replay, monitor=text, cancel_index=i, ops=a["ops"], impl=str(a["obs"]), model=str(model[0])), True))
     # model vs impl: outcomes
     mo = [norm_outcome(x) for x in model[0]]
     io = [norm_outcome(x) for x in a["obs"]]
     if mo != io:
-        ok = False
         j = next((i for i in range(min(len(mo), len(io))) if mo[i] != io[i]), min(len(mo), len(io)))
-        run.violation("tie-broken", "%s: model and implementation disagree on cancel #%d: model %s, implementation %s" % (label, j, mo[j] if j < len(mo) else None, io[j] if j < len(io) else None),
-                      dict(replay, correspondence="Cancel/Model.v outcomes vs CancelRequests received by the mock backends", ops=a["ops"], model=str(mo), impl=str(io)),
-                      found_input=any(a["verdicts"]))
+        issues.append(("tie-broken", "%s: model and implementation disagree on cancel #%d: model %s, implementation %s" % (label, j, mo[j] if j < len(mo) else None, io[j] if j < len(io) else None),
+                       dict(replay, correspondence="Cancel/Model.v outcomes vs CancelRequests received by the mock backends", ops=a["ops"], model=str(mo), impl=str(io)),
+                       any(a["verdicts"])))
     # model vs impl: size of the map at every snapshot
     sizes = model[1]
     for nops, csm, lab in a["snap_at"]:
         want = sizes[nops - 1] if nops > 0 else 0
-        stats["snapshots"] += 1
         if csm != want:
-            ok = False
-            run.violation("tie-broken", "%s: client_server_map has %s entries at snapshot %s, the model has %d (after %d ops)" % (label, csm, lab, want, nops),
-                          dict(replay, correspondence="Cancel/Model.v sizes vs client_server_map.len()", ops=a["ops"][:nops], model_sizes=str(sizes)), found_input=False)
+            issues.append(("tie-broken", "%s: client_server_map has %s entries at snapshot %s, the model has %d (after %d ops)" % (label, csm, lab, want, nops),
+                           dict(replay, correspondence="Cancel/Model.v sizes vs client_server_map.len()", ops=a["ops"][:nops], model_sizes=str(sizes)), False))
             break
-    return ok
+    return issues, known_hits
+
+
+def slowed(scn, f=8):
+    """the same scenario with every wait window stretched (used to re-run a scenario that showed a problem:
+    the scenarios are deterministic up to scheduling delays, so a real defect shows again and a packet that
+    was merely logged late does not)."""
+    s = json.loads(json.dumps(scn))
+    for st in s["steps"]:
+        if "timeout_ms" in st:
+            st["timeout_ms"] = int(st["timeout_ms"]) * f
+        if st.get("op") == "sleep":
+            st["ms"] = int(st.get("ms", 10)) * f
+    return s
 
 
 def hook_present():
@@ -716,22 +721,58 @@ def hook_present():
         return False
 
 
-def run_batch(run, wire, builders, stats, samples, distinct):
-    scns = [b.scenario() for b in builders]
-    metas = [b.meta() for b in builders]
-    results = WL.run_scenarios(wire, scns, workers=12, timeout=90)
+def evaluate(wire, metas, scns, workers):
+    results = WL.run_scenarios(wire, scns, workers=workers, timeout=120)
     analyses = [analyse(m, r) for m, r in zip(metas, results)]
     good = [i for i, a in enumerate(analyses) if not a.get("error") and not a["problems"]]
     exprs = ["(cancel_drop_removes code_variant, exit_entry_first code_variant)"] + [coq_expr(analyses[i]) for i in good]
     vals = vlib.coq_eval("c10eval", PREAMBLE, exprs, shard=24)
     flags = vlib.parse_coq(vals[0])
     models = {i: vlib.parse_coq(v) for i, v in zip(good, vals[1:])}
+    judged = [judge(m, s, a, models.get(i), flags) for i, (m, s, a) in enumerate(zip(metas, scns, analyses))]
+    return analyses, models, judged, flags
+
+
+def run_batch(run, wire, builders, stats, samples, distinct):
+    scns = [b.scenario() for b in builders]
+    metas = [b.meta() for b in builders]
+    analyses, models, judged, flags = evaluate(wire, metas, scns, 12)
+    # a scenario that shows a problem is run again, alone and with stretched waits, up to twice: it is
+    # reported only if the problem shows every time (never a false alarm from a starved process)
+    bad = [i for i, (iss, _) in enumerate(judged) if iss]
+    for attempt in (1, 2):
+        if not bad:
+            break
+        stats["reruns"] += len(bad)
+        a2, m2, j2, _ = evaluate(wire, [metas[i] for i in bad], [slowed(scns[i], 4 * attempt) for i in bad], 4)
+        still = []
+        for pos, i in enumerate(bad):
+            if j2[pos][0]:
+                still.append(i)
+                analyses[i], judged[i] = a2[pos], j2[pos]
+                if pos in m2:
+                    models[i] = m2[pos]
+            else:
+                stats["flaky"].append({"scenario": metas[i]["label"], "first_run": [x[1] for x in judged[i][0]][:3]})
+                analyses[i], judged[i] = a2[pos], j2[pos]
+                models[i] = m2[pos]
+        bad = still
     allok = True
-    for i, (m, s, r, a) in enumerate(zip(metas, scns, results, analyses)):
-        ok = judge(run, m, s, r, a, models.get(i), flags, stats)
-        allok = allok and ok
+    for i, (m, s, a) in enumerate(zip(metas, scns, analyses)):
+        issues, known_hits = judged[i]
+        for key, text in known_hits:
+            ent = [e for e in vlib.known_findings("C10") if e.get("id") == key and e.get("status") == "known"]
+            run.known_finding((ent[0].get("line") or ent[0].get("what")) if ent else "%s: %s" % (key, text), key=key)
+        for kind, what, rep, found in issues:
+            allok = False
+            if kind == "broken":
+                run.broken.append(what)
+            else:
+                run.violation(kind, what, rep, found_input=found)
         if a.get("error") or a["problems"]:
             continue
+        stats["monitor_flags"] += sum(len(v) for v in a["verdicts"])
+        stats["snapshots"] += len(a["snap_at"])
         stats["scenarios"] += 1
         stats["cancels"] += len(a["cancels"])
         stats["contacts"] += sum(1 for o in a["obs"] if o != "Silent")
@@ -747,7 +788,7 @@ def run_batch(run, wire, builders, stats, samples, distinct):
                           k["prior_same_key_since_checkout"], str(norm_outcome(a["obs"][j])) != "Silent", ctx))
             kind = ("exit-window" if k["owner_exiting"] else "holder" if k["held"] is not None else k["owner"][0] if k["owner"][0] != "client" else "not-holding")
             stats["timing_classes"][kind] = stats["timing_classes"].get(kind, 0) + 1
-        if len(samples) < 6 and (i % 9 == 0 or m.get("parked")):
+        if len(samples) < 6 and (i % 9 == 0 or m.get("parked")) and i in models:
             samples.append({"label": m["label"], "actions": m["actions"], "ops": a["ops"], "impl": [str(o) for o in a["obs"]],
                             "model": [str(norm_outcome(o)) for o in models[i][0]]})
     return allok, flags
@@ -777,7 +818,7 @@ def check(run):
     wire = os.environ.get("C10_WIRE") or bins["wire"]
     hook = hook_present()
     stats = {"scenarios": 0, "cancels": 0, "contacts": 0, "ops": 0, "traces": 0, "snapshots": 0, "monitor_flags": 0,
-             "window_scenarios": 0, "window_cancels": 0, "timing_classes": {}}
+             "window_scenarios": 0, "window_cancels": 0, "timing_classes": {}, "reruns": 0, "flaky": []}
     samples, distinct = [], set()
     builders = systematic(hook)
     nrand = 90 if quick else 1500
@@ -806,7 +847,7 @@ def check(run):
     run.cov["traces_validated_against_impl"] = stats["traces"]
     run.cov["rule"] = ("systematic families (mode transaction|session x pool_size 1|2 x one pool | two pools on two backends with identical session (pid,key)): "
                        "own-key timings (before any statement, during a gated statement, twice during it, idle in transaction, between transactions, after COMMIT, after X, right pid + wrong secret, random key, other client's key), "
-                       "hand-over of a server between two clients incl. cancel while waiting for the pool, error exits (socket closed | malformed Close; in a transaction | idle) followed by reuse of the server; "
+                       "hand-over of a server between two clients incl. cancel while waiting for the pool, error exits (socket closed | frame with length 3 | Close that panics its decoder | Bind of an unknown statement with the statement cache on; in a transaction | idle) followed by reuse of the server; "
                        "%s; plus %d seeded random client programs (8-14 actions, 2-3 clients; thorough: 12-24 actions, 2-4 clients) with a cancel at ~42%% of the positions and %d random programs with one exit held open at the schedule point. "
                        "evaluations = cancel requests judged three ways (backend packets, trace monitor, Coq model); distinct = distinct (mode, pool size, pools, owner situation, outcome, 3-op context) tuples"
                        % ("exit-window schedules held open with the schedule point %s (task parked between handle() and the drop of Client, another client takes the server, cancels with the departing key before/after)" % HOOK_POINT if hook else "NO schedule point in /repo: exit-window schedules skipped", nrand, nwin))
@@ -814,7 +855,7 @@ def check(run):
     run.cov["input_distribution"] = {"scenarios": stats["scenarios"], "ops": stats["ops"], "cancel_requests": stats["cancels"], "forwarded_to_a_backend": stats["contacts"],
                                      "map_size_snapshots_compared": stats["snapshots"], "by_owner_situation": stats["timing_classes"],
                                      "exit_window_scenarios": stats["window_scenarios"], "cancels_inside_exit_window": stats["window_cancels"],
-                                     "hook_point_present": hook, "code_variant": {"cancel_drop_removes": flags[0], "exit_entry_first": flags[1]} if flags else None}
+                                     "hook_point_present": hook, "scenarios_rerun_after_a_problem": stats["reruns"], "problems_not_reproduced_on_rerun": stats["flaky"][:10], "code_variant": {"cancel_drop_removes": flags[0], "exit_entry_first": flags[1]} if flags else None}
     run.cov["transitions"] = "model ops exercised: Checkout, ReleaseNormal, Terminate, ExitDropGuard(clean|unclean), ExitDropClient, Cancel, CancelDrop (SrvClose is never forced by these scenarios)"
     if not proof_ok and not run.violations and not run.broken:
         run.violation("proof-broken", "coq/Cancel/Props.v no longer checks; the wire correspondence found no failing input", {"theorem": "Cancel/Props.v", "coq_log": log[-2500:]}, found_input=False)
